@@ -11,11 +11,12 @@ CT_FUNCS = [('secp256k1_scalar_is_zero', []), ('secp256k1_scalar_cmov', []), ('s
             ('secp256k1_fe_impl_normalize', []), ('secp256k1_fe_impl_normalize_weak', []), ('secp256k1_fe_impl_normalizes_to_zero', []),
             ('secp256k1_fe_impl_negate_unchecked', []), ('secp256k1_fe_impl_add', []), ('secp256k1_fe_impl_half', []), ('secp256k1_fe_impl_is_odd', []),
             ('secp256k1_scalar_mul_512', []), ('secp256k1_scalar_sqr_512', []),
-            ('secp256k1_scalar_reduce_512', ['secp256k1_scalar_check_overflow'], ['secp256k1_scalar_reduce'])]
+            ('secp256k1_scalar_reduce_512', ['secp256k1_scalar_check_overflow'], ['secp256k1_scalar_reduce'], 'bind')]
 PROOFS = {'secp256k1_fe_mul_inner': ('Kernel/Field5x52.vo', 'fe_mul_inner_correct'),
           'secp256k1_fe_sqr_inner': ('Kernel/Field5x52Sqr.vo', 'fe_sqr_inner_correct')}
 # proofs over the regenerated branch-free primitives: (function, .vo, theorem)
-CT_PROOFS = [('secp256k1_scalar_mul_512', 'Kernel/ScalarMul512.vo', 'scalar_mul_512_correct'),
+CT_PROOFS = [('secp256k1_scalar_reduce_512', 'Kernel/ScalarReduce512.vo', 'scalar_reduce_512_correct'),
+             ('secp256k1_scalar_mul_512', 'Kernel/ScalarMul512.vo', 'scalar_mul_512_correct'),
              ('secp256k1_scalar_sqr_512', 'Kernel/ScalarSqr512.vo', 'scalar_sqr_512_correct'),
              ('secp256k1_fe_impl_normalize', 'Kernel/FieldNormalize.vo', 'fe_normalize_correct'),
              ('secp256k1_scalar_check_overflow', 'Kernel/Scalar4x64.vo', 'scalar_check_overflow_correct'),
@@ -30,16 +31,16 @@ def regenerate(funcs=None):
     gen = os.path.join(vlib.COQ, 'Gen'); os.makedirs(gen, exist_ok=True)
     res = {}; specs = {}
     for item in (funcs or [(f, []) for f in FUNCS]):
-        fn, deps = item[0], item[1]; inl = item[2] if len(item) > 2 else []
+        fn, deps = item[0], item[1]; inl = item[2] if len(item) > 2 else []; style = item[3] if len(item) > 3 else 'let'
         short = fn.replace('secp256k1_', ''); path = os.path.join(gen, short + '.v')
         try:
             if any(d not in specs for d in deps): raise c2coq.Unsupported('a function it calls could not be translated')
-            text, ins, outs = c2coq.translate(vlib.REPO, fn, callees={d: specs[d] for d in deps}, requires=[d.replace('secp256k1_', '') for d in deps], inlines=inl)
+            text, ins, outs = c2coq.translate(vlib.REPO, fn, callees={d: specs[d] for d in deps}, requires=[d.replace('secp256k1_', '') for d in deps], inlines=inl, style=style)
             specs[fn] = c2coq.translate.last.param_spec
             text = text.replace(vlib.REPO, '<repo>')
             if not os.path.exists(path) or open(path).read() != text + '\n':
                 open(path, 'w').write(text + '\n')
-            res[fn] = (True, '%d inputs, %d outputs, %d lets' % (len(ins), len(outs), text.count(' let ')))
+            res[fn] = (True, '%d inputs, %d outputs, %d lets' % (len(ins), len(outs), text.count(' let ') + text.count('  bind ')))
         except c2coq.Unsupported as e:
             res[fn] = (False, 'translator cannot translate: ' + str(e))
     return res
@@ -59,7 +60,7 @@ def limb_cases(rng, n, nin):
 RAW_SHAPES = {   # input shapes of the raw ops: S scalar limbs (4 x u64), F field limbs (5), T storage limbs (4), I flag, M magnitude, P non-negative int
  'scalar_is_zero': 'S', 'scalar_cmov': 'SSI', 'fe_impl_cmov': 'FFI', 'fe_storage_cmov': 'TTI', 'int_cmov': 'PPI', 'scalar_check_overflow': 'S',
  'scalar_is_high': 'S', 'scalar_cond_negate': 'sI', 'scalar_negate': 's', 'fe_impl_normalize': 'F', 'fe_impl_normalize_weak': 'F',
- 'fe_impl_normalizes_to_zero': 'F', 'fe_impl_negate_unchecked': 'fM', 'fe_impl_add': 'ff', 'fe_impl_half': 'f', 'fe_impl_is_odd': '1', 'scalar_mul_512': 'SS', 'scalar_sqr_512': 'S'}
+ 'fe_impl_normalizes_to_zero': 'F', 'fe_impl_negate_unchecked': 'fM', 'fe_impl_add': 'ff', 'fe_impl_half': 'f', 'fe_impl_is_odd': '1', 'scalar_mul_512': 'SS', 'scalar_sqr_512': 'S', 'scalar_reduce_512': 'SS'}
 N_LIMBS = [0xBFD25E8CD0364141, 0xBAAEDCE6AF48A03B, 0xFFFFFFFFFFFFFFFE, 0xFFFFFFFFFFFFFFFF]
 def raw_inputs(rng, shape):
     v = []
